@@ -50,6 +50,17 @@ pub open spec fn tb_inv(b: TokensBuffer) -> bool {
 	&&& forall|i: int| 0 <= i < b.num_tokens ==> mu_val(#[trigger] b.tokens@[i]).is_some()
 	&&& forall|i: int| 0 <= i < b.num_tokens ==> mu_val(#[trigger] b.token_vaps@[i]).is_some()
 	&&& forall|i: int| 0 <= i < b.num_tokens ==> mu_val(#[trigger] b.token_locations@[i]).is_some()
+	&&& vaps_ok(b)
+}
+// every packed word written so far is well formed (opaque: only push_token and lex_source_into_tokens look inside)
+#[verifier::opaque]
+pub open spec fn vaps_ok(b: TokensBuffer) -> bool { forall|i: int| 0 <= i < b.num_tokens ==> vap_ok(mu_val(#[trigger] b.token_vaps@[i])->0) }
+// the token cells written so far are unchanged (opaque: only push_end_of_source looks inside)
+#[verifier::opaque]
+pub open spec fn toks_same(b0: TokensBuffer, b1: TokensBuffer) -> bool { forall|i: int| 0 <= i < b0.num_tokens ==> mu_val(b1.tokens@[i]) == mu_val(#[trigger] b0.tokens@[i]) }
+// the last two tokens written are EndOfSource
+pub open spec fn ends_eos(b: TokensBuffer) -> bool {
+	b.num_tokens >= 2 && mu_val(b.tokens@[b.num_tokens - 1]) == Some(BaseToken::EndOfSource) && mu_val(b.tokens@[b.num_tokens - 2]) == Some(BaseToken::EndOfSource)
 }
 // what every &mut method of the buffer preserves: slice lengths, and the identity of the borrowed slices
 // (prophecy: the final value of the inner &mut is the final value of the one we started with)
